@@ -6,6 +6,7 @@ import (
 	"os"
 	"strings"
 
+	"github.com/Trendyol/go-dcp/helpers"
 	"github.com/couchbase/gocbcore/v10"
 
 	"verif/vrt"
@@ -60,6 +61,8 @@ func init() {
 				{Scenario: "pipe", Params: mustJSON(PipeParams{Mode: "gen", Alphabet: coll, Depth: d + 1, Ops: ops, Colls: true}), Bound: 0, Shards: 8},
 				{Scenario: "pipe", Params: mustJSON(PipeParams{Mode: "gen", Alphabet: coll, Depth: d, Ops: ops, Colls: false}), Bound: 0, Shards: 4},
 				{Scenario: "c08_rollback", Params: mustJSON(RollbackParams{}), Bound: 0, Shards: 4, Note: "the documented rollback filter: nothing at or below the position already reached, everything above it"},
+				{Scenario: "c03_conc", Params: mustJSON(ConcParams{}), Bound: 2, Shards: 8, Note: "three vBuckets on two nodes streaming concurrently, all schedules within the bound"},
+				{Scenario: "c03_conc", Params: mustJSON(ConcParams{Block: true}), Bound: 1, Shards: 4, Note: "consumer blocked inside a delivery of vb0 while the other node keeps delivering"},
 			}
 		},
 	})
@@ -186,6 +189,100 @@ func init() {
 				return []string{"status " + r.Status.String()}
 			}
 			return nil // resumed: the restart clauses were checked by crashRestart (Failf)
+		}}
+	}
+}
+
+// c03_conc: vBuckets streaming concurrently on two nodes (two DCP threads) and two vBuckets sharing a node,
+// under all schedules within the bound, optionally with the consumer blocking inside one delivery.
+type ConcParams struct {
+	Block bool `json:"block"`
+}
+
+func init() {
+	scenarios["c03_conc"] = func(raw json.RawMessage) *vrt.Scenario {
+		var p ConcParams
+		_ = json.Unmarshal(raw, &p)
+		return &vrt.Scenario{Name: "c03_conc", NoTimerAlt: true, MaxSteps: 400000, Main: func() {
+			resetGlobals()
+			o := EnvOpts{Vbs: 3, Nodes: 2, CheckpointType: "manual", WrapMeta: true}
+			c := NewCluster(&o)
+			scripts := map[uint16][]string{0: {"M", "Mres", "D"}, 1: {"E", "M", "M"}, 2: {"D", "SEQ", "M"}}
+			want := map[uint16][]gocbcore.SimPacket{}
+			for vb := uint16(0); vb < 3; vb++ {
+				c.Append(vb, marker(1, 3))
+				for i, sym := range scripts[vb] {
+					pk := symbolPacket(sym, uint64(i+1))
+					pk.Vb = vb
+					if sym == "SEQ" {
+						c.Append(vb, pk, marker(3, 3))
+						continue
+					}
+					c.Append(vb, pk)
+					if isDoc(pk.Kind) && !strings.HasPrefix(string(pk.Key), helpers.Prefix) {
+						want[vb] = append(want[vb], pk)
+					}
+				}
+			}
+			e := NewEnv(c, o)
+			e.Cons.AutoAck = true
+			released := false
+			if p.Block {
+				e.Cons.OnConsume = func(d *Delivered) {
+					if d.Vb == 0 && d.Seq == 1 {
+						// the consumer sits in this delivery until the other node has delivered everything
+						vrt.Block("consumer busy with vb0 seq1", func() bool { return released })
+					}
+				}
+				vrt.GoNamed("releaser", func() {
+					vrt.Block("vb1 fully delivered", func() bool {
+						n := 0
+						for _, d := range e.Cons.Events {
+							if d.Vb == 1 {
+								n++
+							}
+						}
+						return n == len(want[1])
+					})
+					released = true
+				})
+			}
+			vrt.Window(true)
+			e.Stream.Open()
+			vrt.Quiesce()
+			c.WaitIdle()
+			vrt.Window(false)
+			for vb := uint16(0); vb < 3; vb++ {
+				var got []*Delivered
+				for _, d := range e.Cons.Events {
+					if d.Vb == vb {
+						got = append(got, d)
+					}
+				}
+				if len(got) != len(want[vb]) {
+					vrt.Failf("vb%d: %d events delivered %v, the server sent %d deliverable ones", vb, len(got), seqsOf(got), len(want[vb]))
+					continue
+				}
+				for i, w := range want[vb] {
+					if got[i].Seq != w.Seq || got[i].Kind != w.Kind {
+						vrt.Failf("vb%d: event #%d is %s seq %d, server sent %s seq %d", vb, i, got[i].Kind, got[i].Seq, w.Kind, w.Seq)
+					} else if msg := fieldDiff(got[i], w, false); msg != "" {
+						vrt.Failf("vb%d seq %d: %s", vb, w.Seq, msg)
+					}
+					if got[i].Offset.SeqNo != w.Seq || uint64(got[i].Offset.VbUUID) != uint64(c.Vb[vb].Failover[0].VbUUID) {
+						vrt.Failf("vb%d seq %d: offset %+v is not the event's own position", vb, w.Seq, got[i].Offset)
+					}
+				}
+				tr, _ := e.Tracked(vb)
+				if tr != 3 {
+					vrt.Failf("vb%d tracked %d after three settled events", vb, tr)
+				}
+			}
+			var order []string
+			for _, d := range e.Cons.Events {
+				order = append(order, fmt.Sprintf("%d.%d", d.Vb, d.Seq))
+			}
+			vrt.SetOutcome(strings.Join(order, " "))
 		}}
 	}
 }
